@@ -164,24 +164,6 @@ class MaterialStub:
         return sym_scalar(self.wi, self.wm, f'mu_{name}', Unit({'mm': -1}), 2, positive=True)
 
 
-class _MemoDecorator:
-    def vp_call(self, interp, args, kwargs, node):
-        return _Memoised(args[0])
-
-
-class _Memoised:
-    """functools.lru_cache(f): the same object is handed out for the same arguments."""
-
-    def __init__(self, fn):
-        self.fn, self.memo = fn, {}
-
-    def vp_call(self, interp, args, kwargs, node):
-        key = repr((args, sorted(kwargs.items())))
-        if key not in self.memo:
-            self.memo[key] = interp.call(self.fn, args, kwargs, node)
-        return self.memo[key]
-
-
 # pure numpy functions of literal data: folded with numpy itself
 _FOLDABLE = {'repeat', 'tile', 'array', 'asarray', 'ones', 'zeros', 'cos', 'sin', 'sqrt', 'outer', 'multiply.outer', 'multiply', 'ravel',
              'concatenate', 'kron', 'full', 'arange', 'linspace', 'reshape', 'broadcast_to', 'meshgrid', 'stack', 'hstack', 'square',
@@ -193,10 +175,6 @@ class FoldModel(WitnessModel):
 
     def call_ext(self, interp, path, args, kwargs, node):
         import numpy as np
-        if path in ('functools.lru_cache', 'functools.cache'):
-            if args and not kwargs and not isinstance(args[0], int):
-                return _Memoised(args[0])
-            return _MemoDecorator()
         if path in ('numpy.polynomial.chebyshev.chebgauss', 'numpy.polynomial.legendre.leggauss') and len(args) == 1 and isinstance(args[0], int):
             fn = np.polynomial.chebyshev.chebgauss if 'chebgauss' in path else np.polynomial.legendre.leggauss
             x, w = fn(args[0])
